@@ -251,6 +251,5 @@ KNOWN_CLASSES = {"name-only-id-whose-name-matches-the-numeric-pattern": _name_on
 # DeviceSettings comments and the update block's version are exactly str(identifier) / identifier.version of the
 # configuration handed in, and absent when there is no identifier (contracts proved under C11, obligations here too)
 from pyvc.harness import reuse as _reuse
-from contracts import C11 as _C11x  # noqa: E402,F401
 _reuse("C11/derive_comments_from_config", "C12/derive_comments_from_config.publishes-exactly-the-identifiers")
 _reuse("C11/derive_auth_blocks_from_config", "C12/derive_auth_blocks_from_config.version-of-the-identifier")
